@@ -35,15 +35,26 @@ DTYPES = {'f': float, 'i': int, 'b': bool, 's': '<U2'}
 
 # -- realisation ---------------------------------------------------------------
 
+_order = [0]   # 0 ascending labels, 1 descending, 2 neither (set per record; the time indexes and ranges stay ascending)
+
+
+def _arrange(xs):
+    if _order[0] == 1:
+        return xs[::-1]
+    if _order[0] == 2 and len(xs) > 2:
+        return xs[1:] + xs[:1]
+    return xs
+
+
 def labels_for(kind, n):
     if kind == 'range':
         return range(5, 5 + n)
     if kind == 'list':
-        return [f'p{i}' for i in range(1, n + 1)]
+        return _arrange([f'p{i}' for i in range(1, n + 1)])
     if kind == 'ndarray':
-        return np.arange(3, 3 + n)
+        return np.array(_arrange(list(range(3, 3 + n))))
     if kind == 'pdIndex':
-        return pd.Index([7 * i for i in range(1, n + 1)])
+        return pd.Index(_arrange([7 * i for i in range(1, n + 1)]))
     if kind == 'pdPeriodA':
         return pd.period_range('2000', periods=n, freq='Y')
     if kind == 'pdPeriodQ':
@@ -192,6 +203,7 @@ def run_model(rec, idx):
     diffs = []
     m0, ms, fl = rec['m0'], rec['m'], rec['fl']
     kind = m0['kind']
+    _order[0] = (idx // 3) % 3
     labels = labels_for(kind, len(m0['span']))
     mdl = build_model(m0, labels)
     d0 = state_diffs(mdl, m0, labels)
@@ -286,6 +298,7 @@ def run_linker(rec, idx):
     kind = lk['own']['kind']
     subs = {}
     for s in lk['subs']:
+        _order[0] = (idx // 3) % 3
         labels = labels_for(kind, len(s['m']['span']))
         base = dict(s['m'])
         solved = s['m']['st'][0] == SOLVED
